@@ -231,6 +231,8 @@ class Check:
             self.accepted_execs += len(ch)
             return
         if res["rejects"]:
+            if bad_exec is None and ch and run.line_of(res["rejects"][0]) <= 2:
+                bad_exec = ch[0]        # the Start event (what the public header says) belongs to every execution
             if bad_exec is None:
                 self.infra.append("rejection could not be attributed to an execution: %s" % res["rejects"][0])
                 return
